@@ -155,7 +155,11 @@ def handleCl (toks impl : List String) : String :=
           | some h, some w =>
             -- readings inside the guard band around the tolerance boundary may go either way
             let whi : Int := ((field impl "wanthi").bind int?).getD w
-            if (h : Int) < w ∨ (h : Int) > whi then s!"VIOL clause=cl.laptimes hits={h} want={w}..{whi}"
+            -- (a start line whose ends lie at an azimuth that is an odd multiple of 45° from the start
+            -- point, or whose start point has a latitude of exactly 45°: the geodesic library's octant
+            -- slip, recorded finding; the harness says so from the effective options alone)
+            let tag := if impl.contains "octant=1" then " tag=geodesic-azi45" else ""
+            if (h : Int) < w ∨ (h : Int) > whi then s!"VIOL clause=cl.laptimes{tag} hits={h} want={w}..{whi}"
             else if h = 0 ∧ exit = 0 then "VIOL clause=cl.exit_status why=no-laps"
             else s!"OK nt={if h > 0 then 1 else 0} cls=laptimes"
           | _, _ => "BAD"
